@@ -301,7 +301,7 @@ def directed():
 def random_case(rng, tier):
     lens, _ = gen.length_vector(rng, tier)
     dtype = rng.choice(gen.DT_ALL)
-    vclass = rng.choice(["small", "small", "extreme", "nonfinite"])
+    vclass = rng.choice(["small", "small", "extreme", "nonfinite", "sparse"])
     c = gen_case(rng, lens, dtype, vclass)
     if rng.random() < 0.35:
         c["recv"] = rng.choice(c02.RECVS[1:])
